@@ -135,6 +135,8 @@ def _outside_spec(variant):
         # siblings of the root whose names extend the root's name by a selector that lacks its leading slash
         ["rootURL:mailto:a@b", "f", tag + " sibling named like a URL link\n"],
         ["rootURL:mailto:a@b.abstract", "f", tag + " abstract of that sibling\n"],
+        ["rootURL:secret.txt", "f", tag + " sibling in the URL: namespace\n"],
+        ["rootURL:dir/inner.txt", "f", tag + " inner of such a sibling\n"],
         ["secret/inner.txt", "f", tag + " inner\n"],
         ["rootx/file.txt", "f", tag + " sibling\n"],
         ["rootx/readme.txt", "f", tag + " sibling readme\n"],
@@ -176,7 +178,9 @@ BASES = ["/", "/gm", "/lk", "/gm", "/lk", "/lk2", "/lk2", "/readme.txt", "/dir",
 BASES += ["/PYGOPHERD-HTTPPROTO-ICONS/text.gif", "/PYGOPHERD-HTTPPROTO-ICONS/../../secret.txt", "/PYGOPHERD-HTTPPROTO-ICONS/../secret.txt",
           "/PYGOPHERD-HTTPPROTO-ICONS/..%2f..%2fsecret.txt", "/PYGOPHERD-HTTPPROTO-ICONS/%2e%2e/%2e%2e/secret.txt", "/PYGOPHERD-HTTPPROTO-ICONS",
           "/GEMINI-QUERY/../../secret.txt", "/GEMINI-QUERY/dir"]  # (the 'wap' forms put their own prefix in front of each of these)
-NOSLASH = ["x/file.txt", "x/readme.txt", "x", "x/new/1.msg", "x/new", "readme.txt", "dir/file.txt", "x/../root/readme.txt", "arc.zip/a.txt"]
+# selectors in the 'URL:' namespace that are no URLs (without a leading slash they would name siblings of the root)
+BASES += ["URL:secret.txt", "URL:dir", "URL:dir/inner.txt", "URL:mailto:a@b", "/URL:secret.txt"]
+NOSLASH = ["URL:secret.txt", "URL:dir/inner.txt", "URL:dir", "x/file.txt", "x/readme.txt", "x", "x/new/1.msg", "x/new", "readme.txt", "dir/file.txt", "x/../root/readme.txt", "arc.zip/a.txt"]
 # virtual arguments that would be shell syntax if they ever reached a shell (@S@ = the sandbox directory)
 BASES += [b + sep + arg for b in ("/plain.exe", "/run.sh", "/cgi/no shebang", "/hello.pyg")
           for sep in ("?", "|") for arg in ("x;cat @S@/secret.txt", "$(cat @S@/secret.txt)", "`cat @S@/secret.txt`", "x && ls @S@", "x|cat @S@/secret.txt",
@@ -347,6 +351,11 @@ def enumerate_cases(tier, seed):
             for layers in (0, 1):
                 yield {"full": layers == 1, "cwd": "/", "worldB": "absent" if layers else "diff", "form": form, "noslash": False, "sel": d, "inj": "",
                        "style": "none", "layers": layers, "enc_all": False, "lower_hex": False}
+    # selectors in the 'URL:' namespace that are no URLs, as sent (no leading slash) in every form
+    for d in ("URL:secret.txt", "URL:dir", "URL:dir/inner.txt"):
+        for form in FORMS:
+            yield {"full": False, "cwd": "/", "worldB": "diff", "form": form, "noslash": True, "sel": d, "inj": "",
+                   "style": "noslash", "layers": 0, "enc_all": False, "lower_hex": False}
     # a real server process started with a relative document root, in the foreground and detached
     for detach in (True, False):
         for prefix, st_ in (("", "ForkingTCPServer"), ("./", "ThreadingTCPServer")):
